@@ -272,6 +272,8 @@ def fingerprint(node):
                 rec.append((flag, n.__dict__[flag]))
         rec.append(("parent_is_container", parent is None or n.parent is parent))
         rec.append(("edited", isinstance(n, gtree.EditedTreeNode)))
+        # instance attributes a comparison must not add or drop (memo fields excluded)
+        rec.append(tuple(sorted(k for k in getattr(n, "__dict__", {}) if k not in ("_total_size",))))
         out.append(tuple(rec))
         try:
             kids = list(n.children())
